@@ -314,7 +314,7 @@ DEFAULT_WEIGHTS = {
     "merge": 0, "combine": 0, "split": 0, "unsat_core": 0, "pickle": 0, "pickle_expr": 0, "g_truth": 0, "new": 0,
     "add_replacement": 0, "split_recombine": 0, "merge3": 0,
     # multi-step shapes random walks rarely produce (DESIGN 9.6.1); cheap, so on everywhere with a small weight
-    "exhaust_batch": 2, "span_branch_add": 0, "late_unsat": 2,
+    "exhaust_batch": 2, "span_branch_add": 0, "late_unsat": 2, "bridge_split": 0,
 }
 
 QUERY_KINDS = ("sat", "probe", "eval", "batch_eval", "min", "max", "solution", "is_true", "is_false")
@@ -669,6 +669,9 @@ class HistoryGen:
         elif kind == "exhaust_batch":
             self.macro_exhaust_batch(hi, h)
             return
+        elif kind == "bridge_split":
+            self.macro_bridge_split(hi, h)
+            return
         elif kind == "span_branch_add":
             self.macro_span_branch_add(hi, h, live)
             return
@@ -942,6 +945,33 @@ class HistoryGen:
             return None
         return r.choice(cands), a
 
+    def macro_bridge_split(self, hi, h):
+        """two groups of variables are established first, a later constraint bridges them without naming all their
+        variables, then split(): the bridged groups are ONE group"""
+        r = self.r
+        if h.ref.kind != "enum":
+            return
+        eg = self.egf(h)
+        by_w = {}
+        for n in eg.bvs:
+            by_w.setdefault(self.vars[n], []).append(n)
+        groups = [ns for ns in by_w.values() if len(ns) >= 4]
+        if not groups:
+            return
+        a, b, c, d = r.sample(r.choice(groups), 4)
+        w = self.vars[a]
+        rel = lambda x, y: [r.choice(["ule", "uge", "ne", "eq"]), ["var", x], r.choice([["var", y], ["add", ["var", y], ["const", r.below(1 << w), w]]])]  # noqa: E731
+        cs = [rel(a, b), rel(c, d), rel(b, c)]
+        if r.chance(50):
+            self.emit({"op": "add", "h": hi, "cs": cs})
+        else:
+            for c_ in cs:
+                self.emit({"op": "add", "h": hi, "cs": [c_]})
+        self.emit({"op": "split", "h": hi})
+        self.unknown_handles = min(6, self.unknown_handles + 2)
+        for v in r.sample([a, b, c, d], 2):
+            self.emit({"op": r.choice(["max", "min"]), "h": {"h_var": v, "h": hi}, "e": ["var", v], "signed": False, "extra": []})
+
     def macro_merge3(self, hi, h, live):
         """C15: a three-way merge in which two participants share state (branches of one base) and the third has an
         unrelated history that constrains the same variables differently"""
@@ -1201,6 +1231,7 @@ FLAG_SHAPES = [
     [["a", 4], ["b", 2], ["f", 2]],
     [["a", 3], ["b", 2], ["p", 0], ["f", 2]],
     [["a", 2], ["b", 2], ["c", 2], ["d", 2], ["f", 2]],
+    [["a", 2], ["b", 2], ["c", 2], ["d", 2], ["e", 2], ["f", 1]],
 ]
 COMPOSITE_SHAPES = [
     [["a", 2], ["b", 2], ["c", 2], ["d", 2]],
@@ -1388,7 +1419,8 @@ PROFILES = {
                       ("SolverStrings", 1)],
         "var_shapes": FLAG_SHAPES,
         "length": (6, 36),
-        "weights": {"branch": 14, "merge": 9, "combine": 8, "split": 6, "add": 24, "new": 4, "split_recombine": 4, "merge3": 4},
+        "weights": {"branch": 14, "merge": 9, "combine": 8, "split": 6, "add": 24, "new": 4, "split_recombine": 4, "merge3": 4,
+                    "bridge_split": 4},
         "never_swarm_out": ("branch",),
         "initial_handles": (1, 2),
         "max_handles": 6,
